@@ -291,6 +291,9 @@ type c09Req struct {
 	lplace, lcls string
 	lbytes       int
 	hlen         int // the length of the Authorization header under test (-1: not a header case)
+	// a token whose JOSE header carries parameter hname with a value of class hcls (JSON type htype), serialised as hser,
+	// signature hsig, sits at hplace; hfn: the verifier the endpoint hands it to
+	hplace, hfn, hname, hcls, htype, hser, hsig, hheader string
 
 	method, path string
 	query        url.Values
@@ -971,6 +974,10 @@ func c09HandlerStream(r *hx.Rand, n int, big int, full bool, emit func(*hx.Line)
 				stats[fmt.Sprintf("handler.length.outcome.%dxx", o.status/100)]++
 			}
 		}
+		if q.hplace != "" {
+			l.S("hplace", q.hplace).S("hfn", q.hfn).S("hname", q.hname).S("hcls", q.hcls).S("htype", q.htype).S("hser", q.hser).S("hsig", q.hsig).S("header", clip(q.hheader, 200))
+			c09JoseStat(stats, q, o)
+		}
 		l.S("req", q.describe())
 		emit(l)
 		stats["handler."+cb.router]++
@@ -1007,6 +1014,27 @@ func c09HandlerStream(r *hx.Rand, n int, big int, full bool, emit func(*hx.Line)
 		for _, q := range cb.rawByteCases(r, c09FullBytes) {
 			run(cb, q)
 		}
+	}
+	// the JOSE header as a dimension: every header parameter x every JSON type at every token-consuming endpoint, both routers
+	tJose := time.Now()
+	for i, cb := range beds {
+		switch {
+		case c09FullBytes && i >= 2:
+			for _, q := range cb.joseHeaderCases(true, 0, 1) {
+				run(cb, q)
+			}
+		case i >= 2:
+			for _, q := range cb.joseHeaderCases(false, i-2, 2) {
+				run(cb, q)
+			}
+		case c09FullBytes:
+			for _, q := range cb.joseHeaderCases(false, i, 2) {
+				run(cb, q)
+			}
+		}
+	}
+	if os.Getenv("C09_TIMING") != "" {
+		fmt.Fprintf(os.Stderr, "c09 timing handler/jose %dms (%d cases)\n", time.Since(tJose).Milliseconds(), stats["jose.handler.sig.garbage"]+stats["jose.handler.sig.genuine"])
 	}
 	// op.Authorize behind an authorizer with its own validation (op.AuthorizeValidator): valid and mutated requests
 	for i := 0; i < 2*(40+n/100); i++ {
@@ -1757,14 +1785,30 @@ func c09Stream(r *hx.Rand, tier string, n int, w *bufio.Writer) map[string]int {
 	// the byte-class streams (raw, prov) run their full cross only in a real thorough run: a search after a broken proof
 	// (tier thorough with a small case budget, see check) gets the rotating schedule of the quick tier
 	c09FullBytes = tier == "thorough" && n >= 100000
+	// C09_TIMING=1: wall time per sub-stream on stderr
+	t0 := time.Now()
+	lap := func(name string) {
+		if os.Getenv("C09_TIMING") != "" {
+			fmt.Fprintf(os.Stderr, "c09 timing %s %dms (%d lines)\n", name, time.Since(t0).Milliseconds(), id)
+		}
+		t0 = time.Now()
+	}
 	c09HandlerStream(r, n*45/100, big, tier == "thorough", emit, stats)
+	lap("handler")
 	c09DecoderStream(r, n/100, emit, stats)
 	c09BytesStream(r, n/100, emit, stats)
 	c09ClaimsStream(r, emit, stats)
+	lap("dec+bytes+claims")
 	c09VerifyStream(r, n*3/100, emit, stats)
+	lap("verify")
+	c09JoseVerifyStream(r, c09FullBytes, emit, stats)
+	lap("jose-verify")
 	c09HintCallerStream(emit, stats)
 	c09ClientStream(r, n*20/100, emit, stats)
+	lap("hint+client")
 	c09ProviderStream(r, c09FullBytes, emit, stats)
+	lap("provider")
 	c09RPHandlerStream(r, n/100, emit, stats)
+	lap("rph")
 	return stats
 }
